@@ -75,6 +75,164 @@ Proof.
   exists r0. unfold ret. auto.
 Qed.
 
+(* ---- trivia: whitespace and line comments ---- *)
+Inductive trivia : bytes -> Prop :=
+| tv_nil : trivia []
+| tv_ws c t : is_ws c = true -> trivia t -> trivia (c :: t)
+| tv_comment body t : Forall (fun c => c <> 10) body -> trivia t -> trivia (59 :: body ++ 10 :: t).
+
+(* a final comment without a newline, allowed only at the very end of the input *)
+Inductive trivia_eof : bytes -> Prop :=
+| te_trivia t : trivia t -> trivia_eof t
+| te_open t body : trivia t -> Forall (fun c => c <> 10) body -> trivia_eof (t ++ 59 :: body).
+
+Lemma skip_comment_line body : forall fuel r l, (length body < fuel)%nat -> Forall (fun c => c <> 10) body ->
+  at_bytes r (body ++ 10 :: l) ->
+  exists r', Parser.skip_comment fuel r = (Ok true, r') /\ at_bytes r' l /\ rk r' = rk r.
+Proof.
+  induction body as [|c body IH]; intros fuel r l Hf Hb Ha; (destruct fuel as [|f]; [cbn in Hf; lia|]);
+    cbn [Parser.skip_comment app] in *.
+  - step. change (10 =? 10) with true. cbv iota. exists r0. unfold ret. auto.
+  - step. inversion Hb as [|? ? Hc Hb']; subst. assert (E : (c =? 10) = false) by lia. rewrite E.
+    destruct (IH f r0 l ltac:(cbn in Hf; lia) Hb' Ha0) as (r1 & E1 & Ha1 & Hk1).
+    exists r1. repeat split; auto; congruence.
+Qed.
+
+Lemma skip_comment_open body : forall fuel r, (length body < fuel)%nat -> Forall (fun c => c <> 10) body ->
+  at_bytes r body ->
+  exists r', Parser.skip_comment fuel r = (Ok false, r') /\ at_bytes r' [] /\ rk r' = rk r.
+Proof.
+  induction body as [|c body IH]; intros fuel r Hf Hb Ha; (destruct fuel as [|f]; [cbn in Hf; lia|]);
+    cbn [Parser.skip_comment] in *.
+  - step. exists r0. unfold ret. auto.
+  - step. inversion Hb as [|? ? Hc Hb']; subst. assert (E : (c =? 10) = false) by lia. rewrite E.
+    destruct (IH f r0 ltac:(cbn in Hf; lia) Hb' Ha0) as (r1 & E1 & Ha1 & Hk1).
+    exists r1. repeat split; auto; congruence.
+Qed.
+
+Lemma ws_trivia t : trivia t -> forall fuel r b l, (length t < fuel)%nat -> at_bytes r (t ++ b :: l) -> starts_datum b ->
+  exists r', Parser.parse_whitespace fuel r = (Ok (Some b), r') /\ at_bytes r' (b :: l) /\ peeked r' /\ rk r' = rk r.
+Proof.
+  induction 1 as [|c t Hc Ht IH|body t Hb Ht IH]; intros fuel r b l Hf Ha Hs.
+  - apply ws_here; auto.
+  - destruct fuel as [|f]; [cbn in Hf; lia|]. cbn [Parser.parse_whitespace app] in *. step.
+    destruct (c =? 59) eqn:E59; [apply N.eqb_eq in E59; subst c; discriminate Hc|].
+    unfold is_ws in Hc. rewrite Hc. step.
+    destruct (IH f r1 b l ltac:(cbn in Hf; lia) Ha1 Hs) as (r2 & E2 & Ha2 & Hp2 & Hk2).
+    exists r2. repeat split; auto; congruence.
+  - destruct fuel as [|f]; [cbn in Hf; lia|]. cbn [Parser.parse_whitespace app] in *. step.
+    change (59 =? 59) with true. cbv iota.
+    assert (Ha' : at_bytes r0 ((59 :: body) ++ 10 :: t ++ b :: l)).
+    { cbn [app]. rewrite <- app_assoc in Ha0. exact Ha0. }
+    destruct (skip_comment_line (59 :: body) f r0 (t ++ b :: l)) as (r1 & E1 & Ha1 & Hk1).
+    { cbn [length] in *. rewrite app_length in Hf. cbn [length] in Hf. lia. }
+    { constructor; [discriminate|exact Hb]. }
+    { exact Ha'. }
+    rewrite (bind_ok _ _ _ _ _ E1).
+    destruct (IH f r1 b l) as (r2 & E2 & Ha2 & Hp2 & Hk2); [|exact Ha1|exact Hs|].
+    { cbn [length] in Hf. rewrite app_length in Hf. cbn [length] in Hf. lia. }
+    exists r2. repeat split; auto; congruence.
+Qed.
+
+Lemma trivia_app t1 t2 : trivia t1 -> trivia t2 -> trivia (t1 ++ t2).
+Proof.
+  induction 1 as [|c t Hc Ht IH|body t Hb Ht IH]; intros H2.
+  - exact H2.
+  - cbn [app]. apply tv_ws; [exact Hc|exact (IH H2)].
+  - change ((59 :: body ++ 10 :: t) ++ t2) with (59 :: (body ++ 10 :: t) ++ t2).
+    rewrite <- app_assoc. cbn [app]. apply tv_comment; [exact Hb|exact (IH H2)].
+Qed.
+
+(* trivia up to the end of the input, the last comment possibly without its newline *)
+Lemma ws_trivia_eof t : trivia t -> forall fuel r, (length t < fuel)%nat -> at_bytes r t ->
+  exists r', Parser.parse_whitespace fuel r = (Ok None, r') /\ at_bytes r' [] /\ rk r' = rk r.
+Proof.
+  induction 1 as [|c t Hc Ht IH|body t Hb Ht IH]; intros fuel r Hf Ha.
+  - destruct fuel as [|f]; [cbn in Hf; lia|]. cbn [Parser.parse_whitespace]. step. exists r0. unfold ret. auto.
+  - destruct fuel as [|f]; [cbn in Hf; lia|]. cbn [Parser.parse_whitespace app] in *. step.
+    destruct (c =? 59) eqn:E59; [apply N.eqb_eq in E59; subst c; discriminate Hc|].
+    unfold is_ws in Hc. rewrite Hc. step.
+    destruct (IH f r1 ltac:(cbn in Hf; lia) Ha1) as (r2 & E2 & Ha2 & Hk2).
+    exists r2. repeat split; auto; congruence.
+  - destruct fuel as [|f]; [cbn in Hf; lia|]. cbn [Parser.parse_whitespace app] in *. step.
+    change (59 =? 59) with true. cbv iota.
+    destruct (skip_comment_line (59 :: body) f r0 t) as (r1 & E1 & Ha1 & Hk1).
+    { cbn [length] in *. rewrite app_length in Hf. cbn [length] in Hf. lia. }
+    { constructor; [discriminate|exact Hb]. }
+    { exact Ha0. }
+    rewrite (bind_ok _ _ _ _ _ E1).
+    destruct (IH f r1) as (r2 & E2 & Ha2 & Hk2); [|exact Ha1|].
+    { cbn [length] in Hf. rewrite app_length in Hf. cbn [length] in Hf. lia. }
+    exists r2. repeat split; auto; congruence.
+Qed.
+
+Lemma ws_trivia_open t : trivia t -> forall (body : bytes) fuel r, Forall (fun c => c <> 10) body ->
+  (S (length (t ++ 59%N :: body)) < fuel)%nat -> at_bytes r (t ++ 59 :: body) ->
+  exists r', Parser.parse_whitespace fuel r = (Ok None, r') /\ at_bytes r' [] /\ rk r' = rk r.
+Proof.
+  induction 1 as [|c t Hc Ht IH|cb t Hb Ht IH]; intros body fuel r Hbody Hf Ha.
+  - destruct fuel as [|f]; [cbn in Hf; lia|]. cbn [Parser.parse_whitespace app] in *. step.
+    change (59 =? 59) with true. cbv iota.
+    destruct (skip_comment_open (59 :: body) f r0) as (r1 & E1 & Ha1 & Hk1).
+    { cbn [length] in *. lia. }
+    { constructor; [discriminate|exact Hbody]. }
+    { exact Ha0. }
+    rewrite (bind_ok _ _ _ _ _ E1). exists r1. unfold ret. repeat split; auto; congruence.
+  - destruct fuel as [|f]; [cbn in Hf; lia|]. cbn [Parser.parse_whitespace app] in *. step.
+    destruct (c =? 59) eqn:E59; [apply N.eqb_eq in E59; subst c; discriminate Hc|].
+    unfold is_ws in Hc. rewrite Hc. step.
+    destruct (IH body f r1 Hbody ltac:(cbn in Hf; lia) Ha1) as (r2 & E2 & Ha2 & Hk2).
+    exists r2. repeat split; auto; congruence.
+  - destruct fuel as [|f]; [cbn in Hf; lia|]. cbn [Parser.parse_whitespace app] in *. step.
+    change (59 =? 59) with true. cbv iota.
+    assert (Ha' : at_bytes r0 ((59 :: cb) ++ 10 :: t ++ 59 :: body)).
+    { cbn [app]. rewrite <- app_assoc in Ha0. exact Ha0. }
+    destruct (skip_comment_line (59 :: cb) f r0 (t ++ 59 :: body)) as (r1 & E1 & Ha1 & Hk1).
+    { cbn [length] in *. rewrite !app_length in Hf. cbn [length] in Hf. lia. }
+    { constructor; [discriminate|exact Hb]. }
+    { exact Ha'. }
+    rewrite (bind_ok _ _ _ _ _ E1).
+    destruct (IH body f r1 Hbody) as (r2 & E2 & Ha2 & Hk2); [|exact Ha1|].
+    { cbn [length] in Hf. rewrite !app_length in Hf. cbn [length] in Hf. rewrite app_length. cbn [length]. lia. }
+    exists r2. repeat split; auto; congruence.
+Qed.
+
+Lemma ws_trivia_end t : trivia_eof t -> forall fuel r, (S (length t) < fuel)%nat -> at_bytes r t ->
+  exists r', Parser.parse_whitespace fuel r = (Ok None, r') /\ at_bytes r' [] /\ rk r' = rk r.
+Proof.
+  intros [t' Ht|t' body Ht Hb] fuel r Hf Ha.
+  - apply (ws_trivia_eof t' Ht); auto. lia.
+  - apply (ws_trivia_open t' Ht body); auto.
+Qed.
+
+(* the first byte of non-empty trivia ends any token *)
+Lemma trivia_head_ws t : trivia t -> t <> [] -> exists c t', t = c :: t' /\ (is_ws c = true \/ c = 59).
+Proof. intros [|c t' Hc _|body t' _ _] Hne; [contradiction|exists c, t'; auto|eexists _, _; split; [reflexivity|auto]]. Qed.
+
+(* a decision procedure for trivia, for examples *)
+Fixpoint is_trivia_b (in_comment : bool) (t : bytes) : bool :=
+  match t with
+  | [] => negb in_comment
+  | c :: t' => if in_comment then is_trivia_b (negb (c =? 10)) t'
+               else if c =? 59 then is_trivia_b true t' else is_ws c && is_trivia_b false t'
+  end.
+Lemma is_trivia_b_sound t :
+  (is_trivia_b false t = true -> trivia t) /\
+  (is_trivia_b true t = true -> exists body t', t = body ++ 10 :: t' /\ Forall (fun c => c <> 10) body /\ trivia t').
+Proof.
+  induction t as [|c t [IH1 IH2]]; cbn [is_trivia_b]; split; intros H; try discriminate.
+  - constructor.
+  - destruct (c =? 59) eqn:E.
+    + apply N.eqb_eq in E. subst c. destruct (IH2 H) as (body & t' & -> & Hb & Ht). constructor; assumption.
+    + apply andb_true_iff in H. destruct H as [Hc H]. constructor; auto.
+  - destruct (c =? 10) eqn:E; cbn [negb] in H.
+    + apply N.eqb_eq in E. subst c. exists [], t. repeat split; auto.
+    + destruct (IH2 H) as (body & t' & -> & Hb & Ht). exists (c :: body), t'. repeat split; auto.
+      constructor; [lia|exact Hb].
+Qed.
+Lemma is_trivia_ok t : is_trivia_b false t = true -> trivia t.
+Proof. apply is_trivia_b_sound. Qed.
+
 (* expect_ident on matching text *)
 Lemma expect_ident_ok ident : forall r rest, at_bytes r (ident ++ rest) ->
   exists r', Parser.expect_ident ident r = (Ok tt, r') /\ at_bytes r' rest /\ rk r' = rk r.
@@ -84,6 +242,23 @@ Proof.
   - step. rewrite N.eqb_refl. destruct (IH r0 rest Ha0) as (r1 & E & Ha1 & Hk1).
     exists r1. rewrite E. repeat split; auto; congruence.
 Qed.
+
+
+(* what may follow a datum: end of input, whitespace (space, LF, tab, CR, FF), a
+   ';' comment, or an opening or closing parenthesis or bracket *)
+Definition delim_ok (rest : bytes) : Prop :=
+  match rest with [] => True | d :: _ => is_symbol_terminator d = true end.
+Lemma delim_ok_terminator rest : delim_ok rest -> at_terminator rest.
+Proof. destruct rest as [|d rest]; [auto|]. intros H; exact H. Qed.
+Lemma delim_ok_cases d rest : delim_ok (d :: rest) ->
+  d = 32 \/ d = 10 \/ d = 9 \/ d = 13 \/ d = 12 \/ d = 41 \/ d = 93 \/ d = 40 \/ d = 91 \/ d = 59.
+Proof.
+  cbn [delim_ok]. unfold is_symbol_terminator, memb. cbn [existsb]. intros H.
+  repeat (apply orb_true_iff in H; destruct H as [H|H]; [apply N.eqb_eq in H; subst; tauto|]). discriminate.
+Qed.
+Ltac delim_cases H :=
+  let H' := fresh in pose proof (delim_ok_cases _ _ H) as H';
+  destruct H' as [->|[->|[->|[->|[->|[->|[->|[->|[->| ->]]]]]]]]].
 
 
 Section Tokens.
@@ -243,12 +418,6 @@ Section Tokens.
   Lemma token_sign fuel c : c = 43 \/ c = 45 -> parse_token fuel c = sign_arm fuel c.
   Proof. intros [->| ->]; reflexivity. Qed.
 
-  (* what follows a printed datum: end of input, a space, a closing parenthesis or bracket *)
-  Definition delim_ok (rest : bytes) : Prop :=
-    match rest with [] => True | d :: _ => d = 32 \/ d = 41 \/ d = 93 end.
-  Lemma delim_ok_terminator rest : delim_ok rest -> at_terminator rest.
-  Proof. destruct rest as [|d rest]; [auto|]. intros [->|[->| ->]]; reflexivity. Qed.
-
   Lemma tok_symbol_sign fuel r c s' rest : c = 43 \/ c = 45 ->
     (match s' with [] => True | c2 :: _ => sign_next_ok c2 = true end) ->
     (length (c :: s') < fuel)%nat -> no_terminator (c :: s') -> delim_ok rest -> symbol_ok (c :: s') ->
@@ -270,7 +439,7 @@ Section Tokens.
     assert (Hcond : (let nx := match s' ++ rest with [] => 0 | b :: _ => b end in
                      (nx =? 0) || is_delimiter nx || is_sign_subsequent nx || (nx =? 46) || (127 <? nx)) = true).
     { destruct s' as [|c2 s'']; cbn [app].
-      - destruct rest as [|d rest']; [reflexivity|]. destruct Hd as [->|[->| ->]]; reflexivity.
+      - destruct rest as [|d rest']; [reflexivity|]. delim_cases Hd; reflexivity.
       - exact Hnext. }
     cbv zeta in Hcond. rewrite Hcond.
     unfold parse_symbol_suffix.
